@@ -458,6 +458,20 @@ fn good_case(fctx: &fuzz::Ctx, bin: &str, c: &Value, rng: &mut StdRng, rep: &mut
         // the first variant (Java) answers
         base.conns.truncate(1);
     }
+    if c["size"] == "large" {
+        // a Quake 3 status reply with 130 player lines (one datagram; strings of the case's class)
+        set_strclass(c["str"].as_str().unwrap());
+        let ok = |ch: char| ch != '\\' && ch != '"' && ch != '\n' && ch != '\0';
+        let mut d: Vec<u8> = b"\xff\xff\xff\xffstatusResponse\n".to_vec();
+        let host = random_string_where(rng, 0, 30, ok);
+        d.extend(format!("\\sv_hostname\\{host}\\mapname\\q3dm17\\sv_maxclients\\200\\version\\ioq3 1.36\\g_gametype\\0\n").as_bytes());
+        for _ in 0 .. 130 {
+            let name = random_string_where(rng, 0, 24, ok);
+            d.extend(format!("{} {} \"{}\"\n", rng.gen_range(-50 .. 900), rng.gen_range(0 .. 999), name).as_bytes());
+        }
+        set_strclass("");
+        base.conns = vec![(false, vec![vec![d]])];
+    }
     base.cfg = json!({"port": 27015, "retries": 0});
     // expectation: the library's own response for the same replies (scripted transport)
     let script = base.script();
